@@ -205,6 +205,14 @@ fn urls(full: bool) -> Vec<String> {
             v.push(format!("https://{}{}", h, p));
         }
     }
+    // long URLs: the rule tokens come after 150 / 400 other tokens (a path of many segments, a
+    // query of many parameters)
+    for n in [150usize, 400] {
+        let segs: String = (0..n).map(|k| format!("s{}/", k % 7)).collect();
+        v.push(format!("https://ads.net/{}ads/foo/bar", segs));
+        let params: String = (0..n / 2).map(|k| format!("k{}=v{}&", k % 5, k % 3)).collect();
+        v.push(format!("https://example.com/p?{}utm=1&x=/foo/bar", params));
+    }
     v
 }
 
